@@ -110,6 +110,11 @@ type Engine struct {
 	LastErr     error  // error of the last management call (nil = accepted)
 	// configuration
 	CheckSnaps   bool
+	// FollowInvalidCandidates: when the product offers a deletion candidate the
+	// statement of C11 forbids because of a retained user snapshot (the candidate
+	// itself, or its merge target), do not stop there: carry the deletion out as
+	// the cleaner would and let the snapshot-immutability oracle (C06) decide.
+	FollowInvalidCandidates bool
 	CheckCounter bool
 	CheckChain   bool
 	preload      bool
@@ -653,8 +658,14 @@ func (e *Engine) removeViaCleaner(op Op) *Fail {
 		return fail("candidates|error", err.Error(), "C11")
 	}
 	e.tracef("candidates(cp=%q) -> %v", m.Checkpoint, cands)
+	forced := ""
 	for _, c := range cands {
 		if ok, why := m.ValidDeleteCandidate(c); !ok {
+			if e.FollowInvalidCandidates && (why == "user snapshot not marked removed" || why == "parent is a retained user snapshot") && forced == "" {
+				forced = c
+				e.Labels["remove:forbidden-candidate-followed"]++
+				continue
+			}
 			return fail("candidates|contains="+why, fmt.Sprintf("candidate list %v (checkpoint %q, chain %v) contains %s: %s", cands, m.Checkpoint, m.Chain, c, why), "C11")
 		}
 	}
@@ -667,6 +678,17 @@ func (e *Engine) removeViaCleaner(op Op) *Fail {
 		sel = -sel
 	}
 	target := cands[sel%len(cands)]
+	var victim *Snap // the retained user snapshot the forbidden deletion touches
+	var victimImg *Image
+	if forced != "" {
+		target = forced
+		ts := m.Snaps[target]
+		victim = ts
+		if !(ts.User && !ts.Removed) {
+			victim = m.Snaps[ts.Parent]
+		}
+		victimImg = victim.Img.Clone()
+	}
 	acts, err := s.PrepareRemoveDisk(target)
 	e.tracef("prepareremove %s -> %v %v", target, acts, err)
 	if m.Mode != "RW" {
@@ -691,6 +713,18 @@ func (e *Engine) removeViaCleaner(op Op) *Fail {
 			if err != nil {
 				return fail("removedisk|candidate|refused", fmt.Sprintf("RemoveDiffDisk(%s): %v", a.Source, err), "C11")
 			}
+		}
+	}
+	if victim != nil {
+		got, rerr := ReadDiskImage(e.Dir, victim.Disk, m.Size)
+		if rerr != nil {
+			return fail("snapshot|retained-user-snapshot-lost-by-deletion", fmt.Sprintf("the cleaner's candidate %s was deleted; retained user snapshot %s: %v", target, victim.Disk, rerr), "C06", "C11")
+		}
+		if int64(len(got)) > victimImg.size() {
+			got = got[:victimImg.size()]
+		}
+		if d := victimImg.Diff(got, 0); d != "" {
+			return fail("snapshot|retained-user-snapshot-changed-by-deletion", fmt.Sprintf("the cleaner's candidate %s was merged into retained user snapshot %s, which now reads: %s", target, victim.Disk, d), "C06", "C11")
 		}
 	}
 	e.LastRemoved = target
